@@ -344,6 +344,11 @@ Definition get_message_code : list dstmt :=
 (* driver/netconf/rpc.go Driver.sendRPC (the polling goroutine as one effect) *)
 Definition send_rpc_code : list dstmt :=
   [DIf (DAtom "d.ForceSelfClosingTags") [] []; DCall "m.serialize(d.SelectedVersion, d.ForceSelfClosingTags, d.ExcludeHeader)"; DIf (DNot (DEq "err" "nil")) [DReturn "nil, err"] []; DAssign "r" "response.NewNetconfResponse( serialized.rawXML, serialized.framedXML, d.Transport.GetHost(), d.Transport.GetPort(), d.SelectedVersion, )"; DAssign "err" "d.Channel.WriteAndReturn(serialized.framedXML, false)"; DIf (DNot (DEq "err" "nil")) [DReturn "nil, err"] []; DIf (DEq "d.SelectedVersion" "V1Dot1") [DAssign "err" "d.Channel.WriteReturn()"; DIf (DNot (DEq "err" "nil")) [DReturn "nil, err"] []] []; DAssign "done" "make(chan []byte)"; DCall "context.WithCancel(context.Background()) -> ctx, cancel"; DCall "defer cancel()"; DCall "go func() { defer close(done) var data []byte for { if ctx.Err() != nil { return } data = d.getMessage(m.MessageID) if data != nil { break } time.Sleep(5 * time.Microsecond) } select { case done <- data: case <-ctx.Done(): } }()"; DAssign "timer" "time.NewTimer(d.Channel.GetTimeout(op.Timeout))"; DSwitch "select" [(["err = <-d.errs"], [DReturn "nil, err"]); (["<-timer.C"], [DReturn "nil, fmt.Errorf(""%w: channel timeout sending input to device"", util.ErrTimeoutError)"]); (["data := <-done"], [DCall "r.Record(data)"])]; DReturn "r, nil"].
+(* transport/standard.go Standard.openSession, Standard.Close *)
+Definition std_open_session_code : list dstmt :=
+  [DCall "ssh.Dial( tcp, fmt.Sprintf(""%s:%d"", a.Host, a.Port), cfg, )"; DIf (DNot (DEq "err" "nil")) [DReturn "err"] []; DCall "t.client.NewSession()"; DIf (DNot (DEq "err" "nil")) [DReturn "err"] []; DCall "t.session.StdinPipe()"; DIf (DNot (DEq "err" "nil")) [DReturn "err"] []; DCall "t.session.StdoutPipe()"; DIf (DNot (DEq "err" "nil")) [DReturn "err"] []; DReturn "nil"].
+Definition std_close_code : list dstmt :=
+  [DIf (DNot (DEq "t.session" "nil")) [DAssign "sessionErr" "t.session.Close()"; DAssign "t.session" "nil"] []; DIf (DNot (DEq "t.client" "nil")) [DAssign "err" "t.client.Close()"; DIf (DNot (DEq "err" "nil")) [DReturn "err"] []; DAssign "t.client" "nil"] []; DReturn "sessionErr"].
 (* response/netconf.go NetconfResponse.record1dot1Chunks, record1dot1, Record *)
 Definition record_chunks_code : list dstmt :=
   [DAssign "d" "bytes.TrimSpace(r.RawResult)"; DIf (DOr (DEq "len(d)" "0") (DNot (DEq "d[0]" "byte('#')"))) [DReturn "errNetconf1Dot1ParseError( ""unable to parse netconf response: no chunk marker at start of data"", )"] []; DAssign "terminated" "false"; DRange "_" "while" [DIf (DNot (DAtom "cursor < len(d)")) [DBreak] []; DIf (DEq "d[cursor]" "byte('\n')") [DCall "cursor++"; DContinue] []; DIf (DNot (DEq "d[cursor]" "byte('#')")) [DReturn "errNetconf1Dot1ParseError(fmt.Sprintf( ""unable to parse netconf response: chunk marker missing, got '%s'"", string(d[cursor])))"] []; DCall "cursor++"; DIf (DAtom "cursor >= len(d)") [DReturn "errNetconf1Dot1ParseError( ""unable to parse netconf response: data ends after chunk marker"", )"] []; DIf (DEq "d[cursor]" "byte('#')") [DAssign "terminated" "true"; DBreak] []; DAssign "chunkSizeStr" "zero string"; DAssign "chunkSizeLen" "0"; DRange "_" "while" [DIf (DNot (DAnd (DAtom "chunkSizeLen <= maxChunkSizeCharLen") (DAtom "cursor+chunkSizeLen < len(d)"))) [DBreak] []; DIf (DEq "d[cursor+chunkSizeLen]" "byte('\n')") [DAssign "chunkSizeStr" "string(d[cursor : cursor+chunkSizeLen])"; DCall "cursor += chunkSizeLen + 1"; DBreak] []; DCall "chunkSizeLen++"]; DIf (DEq "chunkSizeStr" """""") [DReturn "errNetconf1Dot1ParseError( ""unable to parse netconf response: failed parsing chunk size"", )"] []; DCall "strconv.Atoi(chunkSizeStr)"; DIf (DNot (DEq "err" "nil")) [DReturn "errNetconf1Dot1ParseError( fmt.Sprintf( ""unable to parse netconf response: unable to parse chunk size '%s': %s"", chunkSizeStr, err, ), )"] []; DIf (DOr (DAtom "chunkSize < 0") (DAtom "chunkSize > len(d)-cursor")) [DReturn "errNetconf1Dot1ParseError( fmt.Sprintf( ""unable to parse netconf response: chunk size '%d' exceeds received data"", chunkSize, ), )"] []; DAssign "joined" "append(joined, d[cursor:cursor+chunkSize]...)"; DCall "cursor += chunkSize"]; DIf (DNot (DAtom "terminated")) [DReturn "errNetconf1Dot1ParseError( ""unable to parse netconf response: end of chunks marker missing"", )"] []; DAssign "joined" "bytes.TrimPrefix(joined, []byte(xmlHeader))"; DAssign "r.Result" "string(bytes.TrimSpace(joined))"; DReturn "nil"].
